@@ -279,6 +279,10 @@ var table = map[string]func(int) int{
 	w("vendor/dep/dep.go", "package dep\n\nfunc Hidden() {}\n")
 	w(".tools/gen.go", "package tools\n\nfunc Gen() {}\n")
 	w("lib/vendor/inner/i.go", "package inner\n\nfunc Inner() {}\n")
+	// two packages laid out alike: the same file name, the same function name on the same line - two
+	// functions all the same, each of which has to be analysed and scanned
+	w("svc/api/handler.go", "package api\n\nfunc Handle(x int) int {\n\tt := 0\n\tfor i := 0; i < x; i++ {\n\t\tt += i\n\t}\n\treturn t + 1\n}\n")
+	w("svc/admin/handler.go", "package admin\n\nfunc Handle(x int) int {\n\tt := 1\n\tfor i := x; i > 0; i -= 2 {\n\t\tt *= i\n\t}\n\treturn t * 2\n}\n")
 	// collected but not analysable: each must carry an error
 	w("broken/syntax.go", "package broken\n\nfunc Oops( {\n")
 	wantErr["broken/syntax.go"] = "syntax error"
